@@ -433,7 +433,7 @@ func (c *Ctx) c18Attr() {
 										if !isC || !isF {
 											clean = false
 										} else if k == "style" {
-											style = f == cssFilter
+											style = f == cssFilter || wrapsFilter(f, cssFilter)
 										}
 									}
 								}
@@ -673,8 +673,18 @@ func (c *Ctx) c18Attr() {
 		// table form: the value is filter(raw) where the table has a filter for the attribute's
 		// name, and the raw value only where the lookup came back nil
 		var tableLk *ssa.Lookup
+		// the filter's result: the call itself, or the first of its results (value, keep)
+		dynCall := func(v ssa.Value) *ssa.Call {
+			if ex, isEx := v.(*ssa.Extract); isEx && ex.Index == 0 {
+				v = ex.Tuple
+			}
+			if fc, isCall := v.(*ssa.Call); isCall && eng.StaticCallee(fc.Common()) == nil && !fc.Call.IsInvoke() {
+				return fc
+			}
+			return nil
+		}
 		for _, a := range alts {
-			if fc, isCall := a.v.(*ssa.Call); isCall && eng.StaticCallee(fc.Common()) == nil && !fc.Call.IsInvoke() {
+			if fc := dynCall(a.v); fc != nil {
 				if lk := filterTable(fc.Call.Value); lk != nil {
 					tableLk = lk
 				}
@@ -683,7 +693,7 @@ func (c *Ctx) c18Attr() {
 		if tableLk != nil {
 			okTable := true
 			for _, a := range alts {
-				if fc, isCall := a.v.(*ssa.Call); isCall && eng.StaticCallee(fc.Common()) == nil && !fc.Call.IsInvoke() && filterTable(fc.Call.Value) == tableLk {
+				if fc := dynCall(a.v); fc != nil && filterTable(fc.Call.Value) == tableLk {
 					continue
 				}
 				if cst, isC := a.v.(*ssa.Const); isC && cst.Value != nil {
@@ -703,6 +713,14 @@ func (c *Ctx) c18Attr() {
 					}
 					for _, b := range a.at.Parent().Blocks {
 						for k := 0; k < len(b.Succs) && len(b.Succs) == 2; k++ {
+							// comma-ok form: the side on which the lookup's ok flag is false
+							if cv, pol, okT := eng.CondTruth(b, k); okT && !pol {
+								if ex, isEx := cv.(*ssa.Extract); isEx && ex.Index == 1 && ex.Tuple == ssa.Value(tableLk) {
+									if eng.EdgeDominates(b, k, a.at) || b == a.at && a.to != nil && b.Succs[k] == a.to {
+										nilSide = true
+									}
+								}
+							}
 							rel, ok := eng.EdgeRel(b, k)
 							if !ok || rel.Op != token.EQL || !eng.IsNilConst(rel.Y) {
 								continue
@@ -1179,6 +1197,21 @@ func (c *Ctx) c18CSS() {
 						refs = true
 					}
 				}
+				// states as types behind an interface (validState{} as styleState): the state is
+				// selected where a value of the handler's receiver type becomes an interface value
+				if mi, ok := in.(*ssa.MakeInterface); ok && fn.Signature.Recv() != nil {
+					rt := fn.Signature.Recv().Type()
+					if pt, isP := rt.(*types.Pointer); isP {
+						rt = pt.Elem()
+					}
+					xt := mi.X.Type()
+					if pt, isP := xt.(*types.Pointer); isP {
+						xt = pt.Elem()
+					}
+					if n, isN := rt.(*types.Named); isN && n.Obj().Pkg() != nil && n.Obj().Pkg().Path() == eng.Mod+"/"+sanRel && types.Identical(rt, xt) {
+						refs = true
+					}
+				}
 				if !refs {
 					return
 				}
@@ -1299,6 +1332,15 @@ func (c *Ctx) c18Text() {
 	prm := fn.Params[0]
 	var probs []string
 	var esc *ssa.Call
+	if steps, at, ok := stepTable(fn); ok {
+		// the transformation written as a table of steps applied in order (for _, step := range
+		// steps { text = step(text) }): the first step must be the escaping itself, every later
+		// one a function of the package that post-processes its argument the allowed way
+		allowedT := map[string]bool{"(*regexp.Regexp).ReplaceAllStringFunc": true, "(*strings.Replacer).Replace": true, "strings.ReplaceAll": true, "fmt.Sprintf": true,
+			"(*regexp.Regexp).ReplaceAllLiteralString": true, "(*regexp.Regexp).ReplaceAllString": true}
+		c.c18TextSteps(fn, wrap, steps, at, allowedT)
+		return
+	}
 	for _, ref := range *prm.Referrers() {
 		switch x := ref.(type) {
 		case *ssa.Call:
@@ -1466,107 +1508,7 @@ func (c *Ctx) c18Text() {
 		checkDerived(esc, fn)
 	}
 	checkDerived(wrap.Params[0], wrap)
-	// WrapURL: constant format, arguments derived from its (already escaped) parameter
-	okWrap := true
-	nWrapRet := 0
-	var builtFrom func(v ssa.Value, leaves map[ssa.Value]bool, depth int) bool
-	builtFrom = func(v ssa.Value, leaves map[ssa.Value]bool, depth int) bool {
-		if depth > 8 {
-			return false
-		}
-		if _, isC := eng.ConstString(v); isC {
-			return true
-		}
-		if leaves[v] {
-			return true
-		}
-		switch x := v.(type) {
-		case *ssa.BinOp:
-			return x.Op == token.ADD && builtFrom(x.X, leaves, depth+1) && builtFrom(x.Y, leaves, depth+1)
-		case *ssa.MakeInterface:
-			return builtFrom(x.X, leaves, depth+1)
-		case *ssa.Call:
-			switch eng.CalleeName(x.Common()) {
-			case "fmt.Sprintf":
-				if _, isC := eng.ConstString(x.Call.Args[0]); !isC {
-					return false
-				}
-				for _, a := range sprintfArgs(x) {
-					if !builtFrom(a, leaves, depth+1) {
-						return false
-					}
-				}
-				return true
-			case "strings.ReplaceAll", "strings.Replace":
-				return builtFrom(x.Call.Args[0], leaves, depth+1)
-			}
-			// strings.Builder: the concatenation of everything written to it
-			if eng.CalleeName(x.Common()) == "(*strings.Builder).String" {
-				sb := x.Call.Args[0]
-				if sb.Referrers() == nil {
-					return false
-				}
-				n := 0
-				for _, ref := range *sb.Referrers() {
-					wc, ok := ref.(*ssa.Call)
-					if !ok || wc == x {
-						continue
-					}
-					switch eng.CalleeName(wc.Common()) {
-					case "(*strings.Builder).WriteString":
-						n++
-						if !builtFrom(wc.Call.Args[1], leaves, depth+1) {
-							return false
-						}
-					case "(*strings.Builder).WriteByte", "(*strings.Builder).WriteRune":
-						n++
-						if _, isC := wc.Call.Args[1].(*ssa.Const); !isC {
-							return false
-						}
-					case "(*strings.Builder).Grow", "(*strings.Builder).Len", "(*strings.Builder).Reset":
-					default:
-						return false
-					}
-				}
-				return n > 0
-			}
-			// a helper of the package that renders its string parameters into constant markup
-			// (anchor(href, label))
-			g := eng.StaticCallee(x.Common())
-			if g == nil || eng.FuncPkgPath(g) != eng.FuncPkgPath(wrap) || len(g.Blocks) == 0 || g.Parent() != nil {
-				return false
-			}
-			for _, a := range x.Call.Args {
-				if !builtFrom(a, leaves, depth+1) {
-					return false
-				}
-			}
-			inner := map[ssa.Value]bool{}
-			for _, prm := range g.Params {
-				inner[prm] = true
-			}
-			rets := successReturns(g)
-			for _, ret := range rets {
-				if len(eng.ReturnResults(ret)) != 1 || !builtFrom(eng.ReturnResults(ret)[0], inner, depth+1) {
-					return false
-				}
-			}
-			return len(rets) > 0
-		}
-		return false
-	}
-	builtFromConsts := func(v ssa.Value, depth int) bool {
-		return builtFrom(v, map[ssa.Value]bool{wrap.Params[0]: true}, depth)
-	}
-	for _, ret := range successReturns(wrap) {
-		nWrapRet++
-		if !builtFromConsts(eng.ReturnResults(ret)[0], 0) {
-			okWrap = false
-		}
-	}
-	if !okWrap || nWrapRet == 0 {
-		probs = append(probs, "WrapURL does not build its anchor from constant markup around its (already escaped) parameter")
-	}
+	c.c18WrapOK(wrap, &probs)
 	// the replacer's replacement strings are constants
 	for g := range p.SyncReach(fn) {
 		if eng.FuncPkgPath(g) != eng.FuncPkgPath(fn) {
@@ -2031,4 +1973,309 @@ func c18FuncOf(p *eng.Prog, v ssa.Value) *ssa.Function {
 		return fn
 	}
 	return nil
+}
+
+// stepTable recognises `for _, step := range T { x = step(x) }; return x` over a package-level
+// slice T of functions that is initialised once from a literal and never written again, with x
+// starting as fn's only parameter. It returns the functions in order.
+func stepTable(fn *ssa.Function) (steps []*ssa.Function, at ssa.Instruction, ok bool) {
+	if len(fn.Params) != 1 {
+		return nil, nil, false
+	}
+	var call *ssa.Call
+	n := 0
+	eng.EachInstr(fn, func(in ssa.Instruction) {
+		if c, isCall := in.(*ssa.Call); isCall {
+			if _, isB := c.Call.Value.(*ssa.Builtin); isB {
+				return
+			}
+			n++
+			call = c
+		}
+	})
+	if n != 1 || call == nil || call.Call.IsInvoke() || eng.StaticCallee(call.Common()) != nil || len(call.Call.Args) != 1 {
+		return nil, nil, false
+	}
+	// the argument: φ(param, call)
+	ph, isPhi := call.Call.Args[0].(*ssa.Phi)
+	if !isPhi || len(ph.Edges) != 2 {
+		return nil, nil, false
+	}
+	okPhi := false
+	for i, e := range ph.Edges {
+		if e == ssa.Value(fn.Params[0]) && ph.Edges[1-i] == ssa.Value(call) {
+			okPhi = true
+		}
+	}
+	if !okPhi {
+		return nil, nil, false
+	}
+	for _, ret := range successReturns(fn) {
+		if res := eng.ReturnResults(ret); len(res) != 1 || res[0] != ssa.Value(ph) {
+			return nil, nil, false
+		}
+	}
+	// the callee: an element of a global slice
+	u, isU := call.Call.Value.(*ssa.UnOp)
+	if !isU || u.Op != token.MUL {
+		return nil, nil, false
+	}
+	ia, isIA := u.X.(*ssa.IndexAddr)
+	if !isIA {
+		return nil, nil, false
+	}
+	lu, isLU := ia.X.(*ssa.UnOp)
+	if !isLU || lu.Op != token.MUL {
+		return nil, nil, false
+	}
+	g, isG := lu.X.(*ssa.Global)
+	if !isG {
+		return nil, nil, false
+	}
+	// single store to the global, in the package initialiser, of a literal of functions
+	var stores []*ssa.Store
+	for _, m := range g.Pkg.Members {
+		f, isF := m.(*ssa.Function)
+		if !isF {
+			continue
+		}
+		for _, h := range eng.WithAnons(f) {
+			eng.EachInstr(h, func(in ssa.Instruction) {
+				if st, isSt := in.(*ssa.Store); isSt && st.Addr == ssa.Value(g) {
+					stores = append(stores, st)
+				}
+			})
+		}
+	}
+	if len(stores) != 1 || stores[0].Parent().Name() != "init" {
+		return nil, nil, false
+	}
+	sl, isSl := stores[0].Val.(*ssa.Slice)
+	if !isSl {
+		return nil, nil, false
+	}
+	al, isAl := sl.X.(*ssa.Alloc)
+	if !isAl {
+		return nil, nil, false
+	}
+	elems := map[int64]*ssa.Function{}
+	for _, ref := range *al.Referrers() {
+		ea, isEA := ref.(*ssa.IndexAddr)
+		if !isEA {
+			continue
+		}
+		k, isK := eng.ConstInt(ea.Index)
+		if !isK {
+			return nil, nil, false
+		}
+		for _, r2 := range *ea.Referrers() {
+			if st, isSt := r2.(*ssa.Store); isSt {
+				f, _, isFn := eng.FuncValueOf(st.Val)
+				if !isFn || f == nil {
+					return nil, nil, false
+				}
+				elems[k] = f
+			}
+		}
+	}
+	for i := int64(0); i < int64(len(elems)); i++ {
+		f, has := elems[i]
+		if !has {
+			return nil, nil, false
+		}
+		steps = append(steps, f)
+	}
+	return steps, call, len(steps) > 0
+}
+
+// c18TextSteps judges TextToHTML written as a table of steps.
+func (c *Ctx) c18TextSteps(fn, wrap *ssa.Function, steps []*ssa.Function, at ssa.Instruction, allowed map[string]bool) {
+	r, p := c.R, c.P
+	var probs []string
+	if eng.FuncName(steps[0]) != "html.EscapeString" {
+		probs = append(probs, "the first step applied to the input is "+eng.FuncName(steps[0])+", not html.EscapeString")
+	}
+	for _, g := range steps[1:] {
+		if eng.FuncName(g) == "html.EscapeString" {
+			continue
+		}
+		if eng.FuncPkgPath(g) != eng.FuncPkgPath(fn) || len(g.Blocks) == 0 || len(g.Params) != 1 {
+			probs = append(probs, "the step "+eng.FuncName(g)+" is not a function of the package that can be examined: it may undo the escaping")
+			continue
+		}
+		if !helperPassesThrough(g, g.Params[0], allowed, 0) {
+			probs = append(probs, "the step "+shortFn(g)+" does not hand on its (escaped) argument through the allowed post-processing steps")
+		}
+		// what the step does to the escaped text: constant replacements must be balanced markup
+		eng.EachInstr(g, func(in ssa.Instruction) {
+			call, ok := in.(*ssa.Call)
+			if !ok {
+				return
+			}
+			switch name := eng.CalleeName(call.Common()); name {
+			case "strings.ReplaceAll", "strings.Replace", "(*regexp.Regexp).ReplaceAllLiteralString", "(*regexp.Regexp).ReplaceAllString":
+				newS, isC := eng.ConstString(call.Call.Args[2])
+				if !isC || !balancedMarkup(newS) {
+					probs = append(probs, "escaped text passes "+name+" at "+p.InstrPos(call)+" whose replacement re-introduces markup characters")
+				}
+			case "strings.NewReplacer":
+				strs, all := variadicStrings(call.Call.Args[0])
+				if !all && !c.constStringSlice(call.Call.Args[0], 0) {
+					probs = append(probs, "strings.NewReplacer is given non-constant replacement strings")
+				}
+				for i := 1; all && i < len(strs); i += 2 {
+					if !balancedMarkup(strs[i]) {
+						probs = append(probs, "strings.NewReplacer at "+p.InstrPos(call)+" has a replacement that re-introduces an unbalanced markup character")
+					}
+				}
+			case "html.UnescapeString", "net/url.QueryUnescape", "net/url.PathUnescape":
+				probs = append(probs, "escaped text is passed to "+name+" at "+p.InstrPos(call)+" in "+shortFn(g)+": this can undo html.EscapeString")
+			}
+		})
+	}
+	// the URL wrapper is judged as in the straight-line form: constant markup around its parameter
+	okWrap := c.c18WrapOK(wrap, &probs)
+	_ = okWrap
+	sort.Strings(probs)
+	if len(probs) > 0 {
+		r.Bad("C18/TEXT", "web.TextToHTML", p.InstrPos(at), "%s", strings.Join(probs, "; "))
+	} else {
+		r.Ok("C18/TEXT", "web.TextToHTML", p.Pos(fn.Pos()), "a table of %d steps applied in order: html.EscapeString first, then package functions that only insert constant, balanced markup", len(steps))
+	}
+}
+
+// c18WrapOK: the URL wrapper builds its anchor from constant markup around its (already
+// escaped) parameter.
+func (c *Ctx) c18WrapOK(wrap *ssa.Function, probs *[]string) bool {
+	// WrapURL: constant format, arguments derived from its (already escaped) parameter
+	okWrap := true
+	nWrapRet := 0
+	var builtFrom func(v ssa.Value, leaves map[ssa.Value]bool, depth int) bool
+	builtFrom = func(v ssa.Value, leaves map[ssa.Value]bool, depth int) bool {
+		if depth > 8 {
+			return false
+		}
+		if _, isC := eng.ConstString(v); isC {
+			return true
+		}
+		if leaves[v] {
+			return true
+		}
+		switch x := v.(type) {
+		case *ssa.BinOp:
+			return x.Op == token.ADD && builtFrom(x.X, leaves, depth+1) && builtFrom(x.Y, leaves, depth+1)
+		case *ssa.MakeInterface:
+			return builtFrom(x.X, leaves, depth+1)
+		case *ssa.Call:
+			switch eng.CalleeName(x.Common()) {
+			case "fmt.Sprintf":
+				if _, isC := eng.ConstString(x.Call.Args[0]); !isC {
+					return false
+				}
+				for _, a := range sprintfArgs(x) {
+					if !builtFrom(a, leaves, depth+1) {
+						return false
+					}
+				}
+				return true
+			case "strings.ReplaceAll", "strings.Replace":
+				return builtFrom(x.Call.Args[0], leaves, depth+1)
+			}
+			// strings.Builder: the concatenation of everything written to it
+			if eng.CalleeName(x.Common()) == "(*strings.Builder).String" {
+				sb := x.Call.Args[0]
+				if sb.Referrers() == nil {
+					return false
+				}
+				n := 0
+				for _, ref := range *sb.Referrers() {
+					wc, ok := ref.(*ssa.Call)
+					if !ok || wc == x {
+						continue
+					}
+					switch eng.CalleeName(wc.Common()) {
+					case "(*strings.Builder).WriteString":
+						n++
+						if !builtFrom(wc.Call.Args[1], leaves, depth+1) {
+							return false
+						}
+					case "(*strings.Builder).WriteByte", "(*strings.Builder).WriteRune":
+						n++
+						if _, isC := wc.Call.Args[1].(*ssa.Const); !isC {
+							return false
+						}
+					case "(*strings.Builder).Grow", "(*strings.Builder).Len", "(*strings.Builder).Reset":
+					default:
+						return false
+					}
+				}
+				return n > 0
+			}
+			// a helper of the package that renders its string parameters into constant markup
+			// (anchor(href, label))
+			g := eng.StaticCallee(x.Common())
+			if g == nil || eng.FuncPkgPath(g) != eng.FuncPkgPath(wrap) || len(g.Blocks) == 0 || g.Parent() != nil {
+				return false
+			}
+			for _, a := range x.Call.Args {
+				if !builtFrom(a, leaves, depth+1) {
+					return false
+				}
+			}
+			inner := map[ssa.Value]bool{}
+			for _, prm := range g.Params {
+				inner[prm] = true
+			}
+			rets := successReturns(g)
+			for _, ret := range rets {
+				if len(eng.ReturnResults(ret)) != 1 || !builtFrom(eng.ReturnResults(ret)[0], inner, depth+1) {
+					return false
+				}
+			}
+			return len(rets) > 0
+		}
+		return false
+	}
+	builtFromConsts := func(v ssa.Value, depth int) bool {
+		return builtFrom(v, map[ssa.Value]bool{wrap.Params[0]: true}, depth)
+	}
+	for _, ret := range successReturns(wrap) {
+		nWrapRet++
+		if !builtFromConsts(eng.ReturnResults(ret)[0], 0) {
+			okWrap = false
+		}
+	}
+	if !okWrap || nWrapRet == 0 {
+		*probs = append(*probs, "WrapURL does not build its anchor from constant markup around its (already escaped) parameter")
+		return false
+	}
+	return true
+}
+
+
+// wrapsFilter: f hands back, as its first result on every return, the result of filter applied
+// to its own parameter (rewriteStyleAttr(val) = (sanitizeStyle(val), kept)).
+func wrapsFilter(f, filter *ssa.Function) bool {
+	if f == nil || len(f.Blocks) == 0 || len(f.Params) != 1 {
+		return false
+	}
+	n := 0
+	ok := true
+	eng.EachInstr(f, func(in ssa.Instruction) {
+		ret, isRet := in.(*ssa.Return)
+		if !isRet || eng.IsRecoverBlock(ret.Block()) {
+			return
+		}
+		n++
+		res := eng.ReturnResults(ret)
+		if len(res) == 0 {
+			ok = false
+			return
+		}
+		call, isCall := eng.StripConv(res[0]).(*ssa.Call)
+		if !isCall || eng.StaticCallee(call.Common()) != filter || len(call.Call.Args) != 1 || eng.StripConv(call.Call.Args[0]) != ssa.Value(f.Params[0]) {
+			ok = false
+		}
+	})
+	return ok && n > 0
 }
